@@ -166,6 +166,54 @@ CHECKS['C20'] = dict(
          'handler on the parent root logger received, join() and the exit code are recorded and validated by TLC.',
     design_ref='DESIGN.md section 6 C20', note=PROCNOTE)
 
+CHECKS['C03'] = dict(
+    technique='TLA+ spec StreamOps: the documented sequential meaning of every operator and a pull automaton per operator, as TLA+ '
+              'definitions; TLC enumerates the (source, program) space within bounds, checks algebraic laws on it and exports every '
+              'case with its expected output / raised element / pull counts; each exported case is replayed on the real Stream '
+              '(spec -> code); real outputs of random deeper programs are judged by TLC (code -> spec, StreamOpsCheck)',
+    text='The oracle is the TLA+ transcription of the documented meaning, not a Python re-implementation.  Quick: sources <= 3 x '
+         'programs <= 2 operators with boundary parameters {1, 2, len, len+1} = ~470k cases, each executed on the real Stream by '
+         'iteration, collect() and drain(), with an instrumented source (construction pulls nothing; pull count after every k '
+         'outputs compared with Need).  Shuffle and random programs (depth <= 6) are checked by TLC as permutations / against the '
+         'spec.  Canary cases with wrong expectations must all be flagged.',
+    design_ref='DESIGN.md section 6 C03', note='TLC; element alphabet, user functions and parameters are finite catalogues (boundary '
+    'values enumerated, mid-range values only in the random leg); parmap with the thread executor; pull counts decided for '
+    'failure-free non-shuffled pipelines')
+CHECKS['C19'] = dict(
+    technique='timed TLA+ spec EagerBatcher (arrival schedule, deadline, clock advancing only when all roles are blocked) checked by '
+              'TLC: partition, batch size, emit rule, no delay; two design mutants refuted; every exported behaviour replayed on the '
+              'real EagerBatcher over a virtual-clock queue with exact comparison; real queue.Queue + producer thread under detsched '
+              'validated by TLC trace validation',
+    text='TLC enumerates all arrival schedules up to 4-5 items (gaps 0..3), batch_size 1..3, wait 0..2, default and custom end '
+         'marker, in a deterministic "eager" mode (harness queue) and a racing mode (real queue).  ~24k exported behaviours are run '
+         'through the real __iter__ with time.perf_counter patched to the virtual clock; yield times and batches are compared '
+         'exactly.  350 detsched traces with a producer thread (N <= 30) are validated by TLC.',
+    design_ref='DESIGN.md section 6 C19', note=TB + '; exact virtual time')
+CHECKS['C15'] = dict(
+    technique='TLA+ spec RemoteExc (stack of nesting levels; Raise / Wrap / Hop / Forward / NestInEnsemble / HopEnsemble / BareHop; a '
+              'traceback text abstracted to the sequence of raise sites) checked exhaustively by TLC; every maximal behaviour '
+              'replayed through real pickle hops and a real Process boundary for a catalogue of 19 exception classes, comparing the '
+              'projection of the real object with the TLC state after every step',
+    text='The protocol dimension (hops, forwarding, re-raising, nesting depth <= 2) is exhaustive: 519 states (1,872 with bare hops), '
+         'invariants ClassArgsKept, RemoteAfterHop, OriginInText, ContainsOriginal, action properties ForwardKeepsText, '
+         'HopKeepsShape; three design flags refuted.  The data dimension is a catalogue: builtins with 0/1/3 args, KeyError, OSError, '
+         'UnicodeDecodeError, custom __init__ / __reduce__ / __slots__, __cause__ / __context__, SystemExit, ExceptionGroup ...; '
+         '8,280 replays in the quick tier.',
+    design_ref='DESIGN.md section 6 C15', note='TLC; pickle byte-level fidelity is exercised, not modelled; exception classes are a catalogue')
+CHECKS['C18'] = dict(
+    technique='TLA+ specs SocketMux (pending queue, K connection senders, per-connection task FIFO with head-only responder, id-matched '
+              'client receiver, stream order) and FifoPipe (two bounded FIFO channels) checked by TLC; TLC trace validation of a real '
+              'SocketServer/SocketClient over a unix socket with gated handler completions and payload classes, and of real '
+              'mpservice.pipe processes',
+    text='TLC checks RightRequest, AtMostOnce, ClientAlive, StreamOrder and AllAnswered for K in {1,2}, backlog and pending sizes, '
+         'R <= 3-4; three design flags refuted, four trap states reachable.  Real client/server runs with handler completions '
+         'released out of order, payloads empty / newline-rich / header-like / 3 MiB / nested / raising; events recorded at the '
+         'linearization points (read_record/write_record wrappers, logging active dict) and validated by TLC; pipe transport with '
+         'messages beyond the 64 KiB buffer in both directions.',
+    design_ref='DESIGN.md section 6 C18', note='TLC; real asyncio loop, sockets and processes under the OS schedule; byte framing is '
+    'exercised by the payload catalogue (thorough: hypothesis payloads), not modelled; asyncio runs a sender\'s continuation before '
+    'dispatching that record\'s response (stated environment assumption LoopOrder)')
+
 ALL = ['C%02d' % i for i in range(1, 21)]
 
 
